@@ -7,6 +7,11 @@ ALL = ["C%02d" % i for i in range(1, 21)]
 
 # id -> (category, technique, level text, level note, design ref, engine)
 CHECKS = {
+ "C06": ("model_checking",
+         "bounded-exhaustive enumeration of option combinations (flags x zoom limits x geographic boxes x border) over sources whose payloads spell their coordinate; converting reader, written container, CLI and server compared with a selection/relocation model",
+         "2 sources (full pyramid z0..3; sparse asymmetric set z0..4) x 4 flag combinations x zoom limits {none,(0,0),(1,2),(2,1),(3,9)} x geographic boxes of the C15 lon/lat alphabet (every 9th in quick = 25k configurations, all 8190 boxes in thorough) x border {none,0,1,3}: TilesConvertReader lookups over every coordinate z<=4, streams over every advertised level and (every 5th configuration) a full conversion into a versatiles container decoded independently. A tile is at c iff c is selected (zoom range, tile box of the geographic box widened by the border, 1e-6-tile don't-care band) and the source has a tile at T^-1(c) (flip first, then swap); its payload names T^-1(c); lookups, streams and advertised coverage agree. CLI: `versatiles convert` with option combinations (28 runs quick / 80 thorough) decoded independently; `versatiles serve` with each flag combination must expose the conversion's mapping.",
+         "The selection model mirrors the documented option semantics (full pyramid, zoom limits, geographic box, border per level). Target formats other than versatiles are covered for round trips by C01/C04.",
+         "3/C06", "E-enum + E-http"),
  "C07": ("model_checking",
          "exhaustive enumeration of raw request targets (all segment sequences up to length 4/5 over a 13-segment alphabet, with/without trailing slash) against the real server binary for folder and tar roots, at / and under URL prefixes",
          "Every sequence of <= 4 (quick; <= 5 thorough) segments over {a.txt, d, e.txt, canary.txt, ., .., empty, %2e%2e, %2E., ..%2f, %5c.., root name, sibling name}, with and without trailing slash, plus absolute-path smuggling and encoded-traversal targets, is sent as a raw request target to four mounts (folder at /, tar at /, folder under /assets, tar under /tarassets) - 248k requests. A 200 body (decoded by Content-Encoding) must equal the file inside the root that the path resolves to and must never contain one of five canaries placed next to, above and beside the root (incl. a sibling directory whose name starts with the root's name); plain paths to existing files must be served; every answer is a complete response.",
